@@ -3,6 +3,7 @@ package main
 // Contract stubs: sync, sync/atomic, fmt, errors.
 
 import (
+	"unsafe"
 	"golang.org/x/tools/go/ssa"
 	"errors"
 	"fmt"
@@ -49,7 +50,21 @@ func toNative(fr *frame, v value, depth int) (interface{}, bool) {
 				}
 			}
 		}
+		if _, isPtr := x.t.Underlying().(*types.Pointer); isPtr {
+			// %p / %v of a pointer: addresses are arbitrary; a fixed one keeps
+			// the text concrete
+			if p, ok := x.v.(*value); ok && p == nil {
+				return unsafe.Pointer(nil), true
+			}
+			return unsafe.Pointer(uintptr(0xc000010000)), true
+		}
 		if _, isBasic := x.t.Underlying().(*types.Basic); !isBasic {
+			switch x.v.(type) {
+			case structure, array, []value, *omap, *closure, *ssa.Function:
+				// composite Go value without Error/String: its %v text is
+				// never the subject of a property; keep it concrete
+				return nativeStringer{"<" + x.t.String() + " value>"}, true
+			}
 			return nil, false
 		}
 		return toNative(fr, x.v, depth+1)
@@ -526,6 +541,12 @@ func rwLock(fr *frame, s structure, write bool) {
 var stubSets = map[string]map[string]externalFn{
 	// a file system in which nothing exists: every open fails
 	"os-nofile": {
+		"os.Stat": func(fr *frame, args []value) value {
+			return tuple{iface{}, fr.i.mkError("stat: no such file or directory")}
+		},
+		"os.Lstat": func(fr *frame, args []value) value {
+			return tuple{iface{}, fr.i.mkError("lstat: no such file or directory")}
+		},
 		"os.OpenFile": func(fr *frame, args []value) value {
 			return tuple{(*value)(nil), fr.i.mkError("open: no such file or directory")}
 		},
